@@ -373,7 +373,10 @@ func errLValue(op string) string {
 }
 
 func expand(yylex yyLexer, x expr) (int, bool) {
-	if x.s == "" {
+	if yylex.(*lexer).err != nil {
+		// nothing is evaluated or assigned after the first error
+		return 0, false
+	} else if x.s == "" {
 		return x.n, true
 	} else if v, set := yylex.(*lexer).env.Get(x.s); !set || v.Value == "" {
 		return 0, true
